@@ -14,6 +14,11 @@ type chanState struct {
 	recvVCs  [][MaxThreads]uint32 // clock of the k-th completed receive
 	sends    int
 	closeVC  [MaxThreads]uint32
+	// unbuffered channels are modelled as a rendezvous (the real channel is not used): a send is enabled when a
+	// receiver waits; it hands the value over and the receiver becomes enabled
+	waiting   int // receivers parked on this channel
+	handoff   []any
+	handoffVC [][MaxThreads]uint32
 }
 
 func chanKey[T any](ch chan T) uintptr {
@@ -28,9 +33,6 @@ func stateOf[T any](s *sched, ch chan T) *chanState {
 	st := s.chans[k]
 	if st == nil {
 		st = &chanState{key: k, keep: ch, length: func() int { return len(ch) }, capacity: cap(ch)}
-		if st.capacity == 0 {
-			panic(MachineryError{"unbuffered channels are not modelled by the scheduler"})
-		}
 		s.chans[k] = st
 	}
 	return st
@@ -48,6 +50,18 @@ func Send[T any](ch chan T, v T, site string) {
 	}
 	t := s.cur
 	st := stateOf(s, ch)
+	if st.key != 0 && st.capacity == 0 {
+		t.pend = pending{kind: opSend, obj: st, site: site, enabled: func() bool { return st.closed || st.waiting > len(st.handoff) }}
+		s.point(t)
+		s.trace("send (rendezvous) %s", site)
+		if st.closed {
+			panic(plainRuntimeError("send on closed channel"))
+		}
+		st.handoff = append(st.handoff, v)
+		st.handoffVC = append(st.handoffVC, t.vc)
+		t.vc[t.id]++
+		return
+	}
 	t.pend = pending{kind: opSend, obj: st, site: site, enabled: func() bool {
 		return st.key != 0 && (st.closed || st.length() < st.capacity)
 	}}
@@ -84,6 +98,23 @@ func Recv2[T any](ch chan T, site string) (T, bool) {
 	}
 	t := s.cur
 	st := stateOf(s, ch)
+	if st.key != 0 && st.capacity == 0 {
+		st.waiting++
+		t.pend = pending{kind: opRecv, obj: st, site: site, enabled: func() bool { return len(st.handoff) > 0 || st.closed }}
+		s.point(t)
+		st.waiting--
+		s.trace("recv (rendezvous) %s", site)
+		if len(st.handoff) > 0 {
+			v := st.handoff[0].(T)
+			joinVC(&t.vc, &st.handoffVC[0])
+			st.handoff, st.handoffVC = st.handoff[1:], st.handoffVC[1:]
+			t.vc[t.id]++
+			return v, true
+		}
+		joinVC(&t.vc, &st.closeVC)
+		var zero T
+		return zero, false
+	}
 	t.pend = pending{kind: opRecv, obj: st, site: site, enabled: func() bool {
 		return st.key != 0 && (st.closed || st.length() > 0)
 	}}
@@ -125,3 +156,8 @@ func Close[T any](ch chan T, site string) {
 }
 
 // Len and Cap need no interception (they do not block); they are left alone.
+
+type plainRuntimeError string
+
+func (e plainRuntimeError) Error() string { return string(e) }
+func (e plainRuntimeError) RuntimeError() {}
